@@ -219,33 +219,25 @@ def check_proofs(ctx, props_rel, jobs=16, extra_targets=(), const_parts=None):
             ctx.infra_problem('constants extractor: ' + p)
     ctx.targets = [props_rel + 'o'] + list(extra_targets)
     ok, log = build.make(jobs, targets=ctx.targets)
-    good = os.path.join(GEN, 'Consts.v.good')
     relevant = [p for p in problems if const_parts is None or p.split(':')[0] in const_parts]
     if ok and not problems and 'PJPLAN_REPO' not in os.environ:
-        # remembered for the day the constants can no longer be extracted (see below)
-        try:
-            import shutil
-            shutil.copyfile(os.path.join(GEN, 'Consts.v'), good)
-        except OSError:
-            pass
+        # remembered for the day the constants / translated definitions can no longer be produced (see below)
+        build.save_good()
     fallback_log = None
-    if (not ok or relevant) and os.path.exists(good):
-        # The constants could not be extracted from the source as it is now, or the development does not build with
-        # them: the proof obligation is BROKEN (reported below).  The search for a concrete failing input goes on
-        # with the model built from the constants of the last run that had no such problem.
-        import shutil
-        cur = os.path.join(GEN, 'Consts.v')
-        with open(cur, encoding='utf-8') as f:
-            broken_text = f.read()
-        with open(good, encoding='utf-8') as f:
-            good_text = f.read()
-        if broken_text != good_text:
-            build.write_if_changed(cur, good_text)
+    if not ok or relevant:
+        # The constants could not be extracted from the source as it is now, the source could not be translated, or
+        # the development does not build with what was generated: the proof obligation is BROKEN (reported below).
+        # The search for a concrete failing input goes on with the model built from the generated files of the last
+        # run that had no such problem.
+        replaced = build.restore_good()
+        if replaced:
             ok2, log2 = build.make(jobs, targets=ctx.targets)
             ctx.fallback_consts = ok2
             fallback_log = log
             if not ok2:
-                build.write_if_changed(cur, broken_text)
+                for f, text in replaced.items():
+                    if text is not None:
+                        build.write_if_changed(os.path.join(GEN, f), text)
     cone = build.dep_cone(props_rel)
     hits = build.forbidden_scan(cone)
     names = []
@@ -274,9 +266,10 @@ def check_proofs(ctx, props_rel, jobs=16, extra_targets=(), const_parts=None):
         return
     if getattr(ctx, 'fallback_consts', False):
         ctx.proof['ok'] = False
-        ctx.proof['error'] = ('constants could not be extracted from the source / do not fit the model: %s; the search for a '
-                              'failing input continues with the constants of the last good build' % '; '.join(relevant or problems))
-        ctx.proof['broken_files'] = ['gen/Consts.v']
+        ctx.proof['error'] = ('constants could not be extracted from the source / the source could not be translated / the '
+                              'generated definitions do not fit the proofs: %s; the search for a failing input continues with '
+                              'the generated files of the last good build' % ('; '.join(relevant or problems) or log[-1500:]))
+        ctx.proof['broken_files'] = ['gen/' + f for f in build.GEN_FILES]
         return
     if hits:
         ctx.proof['ok'] = False
@@ -326,7 +319,11 @@ def check_proofs(ctx, props_rel, jobs=16, extra_targets=(), const_parts=None):
         ctx.proof['ok'] = False
         ctx.proof['error'] = 'statement file has %d theorems but %d Print Assumptions' % (len(names), n_pa)
         return
-    ctx.proof['ok'] = obligations > 0 and discharged == obligations
+    ctx.proof['ok'] = obligations > 0 and discharged == obligations and not relevant
+    if relevant:
+        ctx.proof['error'] = ('the generated files could not be produced from the source as it is now (%s): the theorems that '
+                              'depend on them are not re-checked against this code' % '; '.join(relevant))
+        ctx.proof['broken_files'] = ['gen/' + f for f in build.GEN_FILES]
 
 
 # ---------- decision -----------------------------------------------------------------------------
